@@ -21,7 +21,9 @@ for id in $ids; do
     if (cd $wt && GOFLAGS=-mod=mod GOPROXY=off GOMAXPROCS=8 go test -vet=off -count=1 ./... 2>&1 | grep -v "TestReader\b\|TestReaderLegacy\|Sawyer_linked\|Sawyer_long\|vmlinux" | grep -q "^--- FAIL\|^panic\|build failed"); then suite=FAILS-SUITE; else suite=passes-suite; fi
   fi
   res=""
-  for P in $(python3 -c "import json;print(' '.join(json.load(open('$d/meta.json'))['checks']))"); do
+  checks=$(python3 -c "import json;print(' '.join(json.load(open('$d/meta.json'))['checks']))")
+  [ "${MUT_PRIMARY:-0}" = 1 ] && checks=$(echo $checks | cut -d' ' -f1)
+  for P in $checks; do
     VERIF_REPO=$wt VERIF_SCRATCH=$out "$HERE/check" $P quick > "$HERE/.build/mutants/$id.$P.log" 2>&1; rc=$?
     case $rc in 1) res="$res $P=CAUGHT($(grep -c '^VIOLATION' "$HERE/.build/mutants/$id.$P.log"))";; 0) res="$res $P=missed";; *) res="$res $P=harness-rc$rc";; esac
   done
